@@ -12,6 +12,7 @@ import (
 	"runtime/debug"
 	"runtime/metrics"
 	"strings"
+	"sync"
 	"sync/atomic"
 	"time"
 )
@@ -27,9 +28,9 @@ import (
 const childEnv = "VERIF_C12_CHILD"
 
 const (
-	childMaxStack  = 64 << 20  // goroutine stack cap in the child (Go default 1 GB): an overflow is fast
+	childMaxStack  = 256 << 20  // goroutine stack cap in the child (Go default 1 GB): an overflow is fast
 	childMemLimit  = 1536 << 20 // watchdog: total Go memory above this = unbounded allocation
-	probeTimeLimit = 20 * time.Second
+	probeTimeLimit = 10 * time.Second
 	exitOOM        = 97
 	exitHang       = 98
 	exitAfterPanic = 96
@@ -87,12 +88,6 @@ func init() {
 		w.Write(b)
 		w.WriteByte('\n')
 		w.Flush()
-		for _, o := range r.Outcomes {
-			if o.State == "panic" { // state after an unwound panic is not trusted: fresh child
-				env.close()
-				os.Exit(exitAfterPanic)
-			}
-		}
 	}
 	env.close()
 	os.Exit(0)
@@ -138,7 +133,7 @@ func panicSite() string {
 	for {
 		fr, more := frames.Next()
 		fn := fr.Function
-		if !strings.HasPrefix(fn, "runtime.") && !strings.Contains(fn, "drivers/c12.guarded") {
+		if strings.Contains(fn, "github.com/ontio/ontology/") {
 			if i := strings.LastIndex(fr.File, "/"); i >= 0 {
 				out = append(out, fmt.Sprintf("%s (%s:%d)", shortFn(fn), fr.File[i+1:], fr.Line))
 			}
@@ -155,6 +150,52 @@ func shortFn(fn string) string {
 		return fn[i+1:]
 	}
 	return fn
+}
+
+// runParallel splits the probes over `par` concurrent children (round-robin, so that every child
+// gets the same mix); the probes of `fatal` are expected to end their child (known findings) and
+// are placed last in different children, so that no restart is needed for them.
+func runParallel(dir string, probes, fatal []Probe, par int, perChild time.Duration) (res []ProbeResult, fres []ProbeResult) {
+	if par < len(fatal) {
+		par = len(fatal)
+	}
+	if par < 1 {
+		par = 1
+	}
+	chunks := make([][]Probe, par)
+	idx := make([][]int, par)
+	for i, p := range probes {
+		chunks[i%par] = append(chunks[i%par], p)
+		idx[i%par] = append(idx[i%par], i)
+	}
+	for i, p := range fatal {
+		chunks[i] = append(chunks[i], p)
+		idx[i] = append(idx[i], -1-i)
+	}
+	res = make([]ProbeResult, len(probes))
+	fres = make([]ProbeResult, len(fatal))
+	var wg sync.WaitGroup
+	for k := range chunks {
+		if len(chunks[k]) == 0 {
+			continue
+		}
+		wg.Add(1)
+		go func(k int) {
+			defer wg.Done()
+			rs := runInChildren(fmt.Sprintf("%s/w%d", dir, k), chunks[k], perChild)
+			for j, r := range rs {
+				if t := idx[k][j]; t >= 0 {
+					r.I = t
+					res[t] = r
+				} else {
+					r.I = -1 - t
+					fres[-1-t] = r
+				}
+			}
+		}(k)
+	}
+	wg.Wait()
+	return
 }
 
 // runInChildren executes the probes in child processes; dir is the scratch directory for ledgers.
@@ -232,7 +273,15 @@ func deathLine(s string) string {
 	var keep []string
 	var fns []string
 	seen := map[string]bool{}
-	for _, l := range strings.Split(s, "\n") {
+	lines := strings.Split(s, "\n")
+	for i, l := range lines { // skip what the node logged before the runtime's report
+		if strings.HasPrefix(l, "runtime: goroutine stack exceeds") || strings.HasPrefix(l, "fatal error:") ||
+			strings.HasPrefix(l, "panic:") || strings.HasPrefix(l, "WATCHDOG-") {
+			lines = lines[i:]
+			break
+		}
+	}
+	for _, l := range lines {
 		l = strings.TrimSpace(l)
 		if l == "" || strings.HasPrefix(l, "runtime: sp=") || strings.HasPrefix(l, "stack: frame") {
 			continue
@@ -243,13 +292,11 @@ func deathLine(s string) string {
 		}
 		if i := strings.Index(l, "github.com/ontio/ontology/"); i == 0 && len(fns) < 4 {
 			fn := l[len("github.com/ontio/ontology/"):]
-			if j := strings.Index(fn, "("); j > 0 {
-				// keep "pkg/path.(*T).method" up to the argument list
-				if k := strings.LastIndex(fn, "("); k > j || !strings.Contains(fn[:j], ".") {
-					fn = fn[:k]
-				}
+			// "pkg/path.(*T).method(0xc000..., ...)" -> "path.(*T).method"
+			if k := strings.LastIndex(fn, "("); k > 0 && !strings.HasPrefix(fn[k:], "(*") {
+				fn = fn[:k]
 			}
-			fn = shortFn(strings.TrimRight(fn, "("))
+			fn = shortFn(fn)
 			if !seen[fn] {
 				seen[fn] = true
 				fns = append(fns, fn)
